@@ -245,15 +245,19 @@ def placed : Shape → Template → Bool
   | s, .shq _ :: t => s.mode == .unq && placed ⟨s.mode, false⟩ t
   | s, .raw _ :: t => placed ⟨s.mode, false⟩ t
   | s, .dq _ :: t => placed ⟨s.mode, false⟩ t
+  | s, .safe _ :: t => s.mode == .unq && placed ⟨s.mode, false⟩ t
 
 /-- **Templates whose arguments all go through `shlex.quote` are verbatim**: for every argument list the
     rendered text is read by the shell exactly as the template with the argument values inserted verbatim. -/
 theorem feed_render_quoted (t : Template) : ∀ (st : LexSt) (args : List (List Char)),
-    allShQuoted t = true → placed (shape st) t = true → feed st (render t args) = specFeed st args t := by
+    allShQuoted t = true → placed (shape st) t = true → safeArgsOk t args = true →
+    feed st (render t args) = specFeed st args t := by
   induction t with
-  | nil => intro st args _ _; rfl
+  | nil => intro st args _ _ _; rfl
   | cons p t ih =>
-    intro st args hq hp
+    intro st args hq hp hs
+    simp only [safeArgsOk, List.all_cons, Bool.and_eq_true] at hs
+    have hs' : safeArgsOk t args = true := hs.2
     simp only [allShQuoted, List.all_cons, Bool.and_eq_true] at hq
     have hq' : allShQuoted t = true := hq.2
     have hr : render (p :: t) args = renderPiece args p ++ render t args := by simp [render]
@@ -261,13 +265,21 @@ theorem feed_render_quoted (t : Template) : ∀ (st : LexSt) (args : List (List 
     cases p with
     | lit l =>
       simp only [renderPiece, specFeed]
-      exact ih _ args hq' (by simpa [placed, shape_feed] using hp)
+      exact ih _ args hq' (by simpa [placed, shape_feed] using hp) hs'
     | shq i =>
       simp only [placed, Bool.and_eq_true, beq_iff_eq] at hp
       have hm : st.mode = .unq := hp.1
       simp only [renderPiece, specFeed]
       rw [feed_shlexQuote st _ hm]
-      exact ih _ args hq' (by rw [shape_pushLit]; exact hp.2)
+      exact ih _ args hq' (by rw [shape_pushLit]; exact hp.2) hs'
+    | safe i =>
+      simp only [placed, Bool.and_eq_true, beq_iff_eq] at hp
+      have hm : st.mode = .unq := hp.1
+      simp only [renderPiece, specFeed]
+      have h1 := hs.1
+      simp only [Bool.and_eq_true, Bool.not_eq_true', List.isEmpty_eq_false_iff] at h1
+      rw [feed_safe st _ h1.1 h1.2 hm]
+      exact ih _ args hq' (by rw [shape_pushLit]; exact hp.2) hs'
     | raw i => simp [Piece.isShQuoted] at hq
     | dq i => simp [Piece.isShQuoted] at hq
 
